@@ -112,7 +112,13 @@ class TxnAnalysis:
         fn = self.methods.get(name)
         if fn is None:
             return False
-        for n in ast.walk(fn):
+        # (the loop may sit in a module-level helper of modeling_update.py that the method hands its lists to)
+        from ..astutil import nodes_through_helpers as _nth
+        try:
+            nodes = _nth(fn, None, depth=2, find_function=self.pm.function_finder(self.rel))
+        except Exception:
+            nodes = list(ast.walk(fn))
+        for n in nodes:
             if isinstance(n, ast.For):
                 for c in ast.walk(n):
                     if isinstance(c, ast.Call) and isinstance(c.func, ast.Attribute) \
